@@ -518,6 +518,11 @@ class Executor:
             bits, signed = INT_TYPES[m.group(1)]
             lo, hi = tm.ty_range(bits, signed)
             return I(lo if m.group(2) == "MIN" else hi)
+        m = re.fullmatch(r"(?:core|std)::num::<impl ([iu](?:8|16|32|64|128|size))>::(MIN|MAX|BITS)", c)
+        if m:
+            bits, signed = INT_TYPES[m.group(1)]
+            lo, hi = tm.ty_range(bits, signed)
+            return I({"MIN": lo, "MAX": hi, "BITS": bits}[m.group(2)])
         if c in getattr(self, "const_env", {}):
             return I(self.const_env[c])
         if c == "true":
@@ -760,6 +765,9 @@ class Executor:
 
     def eval_op(self, fn, op, vals, ty, lhs_ty, st):
         vals = [v.tag if isinstance(v, Enum) else v for v in vals]
+        for v in vals:
+            if not isinstance(v, T):
+                raise Unsupported(f"{op} on an unmodelled value {v!r}")
         it = self.int_ty(ty) if ty else None
         if op in ("AddWithOverflow", "SubWithOverflow", "MulWithOverflow"):
             if it is None:
